@@ -3,3 +3,7 @@ import Snowflake.Props.C06
 import Snowflake.Props.C09
 import Snowflake.Tie.Encap
 import Snowflake.Tie.NameMatcher
+import Snowflake.Props.C02
+import Snowflake.Props.C03
+import Snowflake.Props.C04
+import Snowflake.Tie.Broker
